@@ -105,6 +105,9 @@ case("n09-with-assignment-to-for-in-const-head", "same class as n08 with the con
                                      ("SBlock", [pr(ident("a")), ("SExpr", ("EAssign", pid("a"), num(-1))), pr(s("ok"), ident("a"))]))],
                            (pid("e"), [pr(s("W"), member(ident("e"), "name"))]), None),
                           pr(s("after"), ident("a"))]))]))
+case("n10-completion-value-stale-kept", "found by the thorough run: inside a loop body whose value is observed, a nested switch stores its value and a following `if (true) {}` (completion undefined) does not reset it",
+     script([("SFor", ("FIDecl", "KVar", [(pid("z"), num(0))]), ("EBinary", "BLt", ident("z"), num(1)), ("EUpdate", False, True, ident("z")),
+              ("SBlock", [("SSwitch", num(5), [(num(5), [("SExpr", num(5))])]), ("SIf", ("EBool", True), ("SBlock", []), None)]))]))
 # agreeing smoke programs
 case("s01-smoke", "let / for / try / finally / throw / print / completion value",
      script([let("x", num(1)),
